@@ -238,6 +238,6 @@ pub fn run(g: &mut Global) {
     );
     let bc = boundary_cfgs();
     g.exhaustive("boundary", bc.len() as u64, &move |i| Case { cfg: bc[i as usize].clone(), later: vec![letter(1.0), letter(3.0), letter(2.0)], reset_at: Some(2) }, &check);
-    g.random("later_history", g.tier.pick(4000, 40000), &later_strategy, &check);
-    g.random("defaults", g.tier.pick(4000, 40000), &default_strategy, &check_default);
+    g.random("later_history", g.tier.pick(4000, 400000), &later_strategy, &check);
+    g.random("defaults", g.tier.pick(4000, 400000), &default_strategy, &check_default);
 }
